@@ -525,6 +525,98 @@ var stmtTemplatesPlain = []string{
 	`    c = 'a'`,
 }
 
+// Whole small programs in corners of the language the std library does not
+// visit (methods on structs without "?", receiver-less functions, pure public
+// methods with checked arguments, …); every lexeme deleted / duplicated too.
+var cornerPrograms = []string{
+	`pub struct foo(
+        x : base.u8,
+)
+
+pub func foo.get() base.u8 {
+    return this.x
+}
+`,
+	`pri struct foo(
+        x : base.u8,
+)
+
+pri func foo.set!(v: base.u8) {
+    this.x = args.v
+}
+
+pub struct baz?(
+        f : foo,
+        g : array[2] foo,
+)
+
+pub func baz.q!() {
+    this.f.set!(v: 1)
+}
+`,
+	`pub struct foo?(
+        x : base.u8,
+)
+
+pub func foo.bar(i: base.u32[..= 5], p: ptr foo) base.u8 {
+    return this.x
+}
+`,
+	`pub struct foo?(
+        x : base.u8,
+)
+
+pub func foo.flag!() base.bool {
+    return true
+}
+
+pub func foo.rng!() base.range_ie_u32 {
+    return this.util.make_range_ie_u32(min_incl: 0, max_excl: 1)
+}
+`,
+	`pub func free(i: base.u32[..= 10], r: base.io_reader) base.u32 {
+    return args.i
+}
+
+pri func helper!(s: slice base.u8) base.u64 {
+    return args.s.length()
+}
+`,
+	`pub struct foo?(
+        x : base.u8,
+)
+
+pub func foo.bar!(i: base.u32[..= 10]) base.u32 {
+    return args.i
+}
+
+pub func foo.baz!(j: base.u8[1 ..= 3], w: base.io_writer) base.status {
+    return ok
+}
+
+pub func foo.qux!(s: ptr foo) base.u64 {
+    return 0
+}
+`,
+	`pri status "#e"
+
+pub struct foo?(
+        x : base.u8,
+)
+
+pub func foo.tell?(dst: base.io_writer, src: base.io_reader) {
+    var c : base.u8
+    c = args.src.read_u8?()
+    args.dst.write_u8?(a: c)
+    return "#e"
+}
+
+pub func foo.restart!(p: base.u64) base.status {
+    return base."#bad argument"
+}
+`,
+}
+
 // Top-level declaration templates (every lexeme deleted / duplicated too).
 var declTemplates = []string{
 	`use "std/crc32"
